@@ -757,7 +757,14 @@ class SV(_NPScalarMixin):
     __ne__ = _cmpop("ne")
 
     def __hash__(self):
-        return 0  # forces dict/set look-ups through __eq__, which forks
+        # dict / set look-ups: fork over the feasible values of the key, then hash the concrete value; the
+        # subsequent __eq__ against the stored key is decided by the path condition
+        e = self.e
+        if e.sort() == z3.IntSort():
+            return hash(concretize_int(e))
+        if e.sort() == z3.BoolSort():
+            return hash(decide(e))
+        raise Unsupported("hashing a symbolic real/string (use concrete keys with symbolic membership)")
 
     def __neg__(self):
         return box(r_neg(self.e))
